@@ -9,7 +9,11 @@ EXTENDS Ops, Hodo, Lattice, TLC, Json
 CONSTANTS CurveP, Seed
 VARIABLES sh, out
 vars == <<sh, out>>
-CurveSet == Curves(ClampedDirs(CurveP, KQ, 2), {2}, BOOLEAN, Seed)
+\* three distinct interior knots, single and repeated (the binary span search then meets a parameter equal to the upper knot
+\* of the interval it is testing)
+Dense == {<<1, MkClamped(1, <<R(1,4), Half, R(3,4)>>, <<1, 1, 1>>)>>, <<2, MkClamped(2, <<R(1,4), Half, R(3,4)>>, <<1, 1, 1>>)>>,
+          <<2, MkClamped(2, <<R(1,4), Half>>, <<1, 2>>)>>, <<3, MkClamped(3, <<R(1,4), Half, R(3,4)>>, <<3, 1, 2>>)>>}
+CurveSet == Curves(ClampedDirs(CurveP, KQ, 2), {2}, BOOLEAN, Seed) \cup Curves(Dense, {2}, {FALSE}, Seed)
 SD == ClampedDirs({1, 2}, <<R(1,4), R(3,4)>>, 1)
 SurfSet == {s \in Surfaces(SD, SD, {3}, BOOLEAN, Seed) : s.size[1] # s.size[2]}
 VolSet == {s \in Volumes(ClampedDirs({1, 2}, <<Half>>, 1), ClampedDirs({1, 2}, <<Half>>, 1), ClampedDirs({1}, <<Half>>, 1), {TRUE}, Seed) : DiffSizes(s)}
